@@ -298,6 +298,12 @@ Definition holds_crash (ops : list mop) (acked : nat) (observed : tbl) : list st
      || (Nat.leb (S acked) (length ops) && tbl_eqb observed (cand (S acked)))
   then [] else ["crash_prefix"%string].
 
+(* [valid] as a boolean: valid is already the boolean statement "loads(dumps v) = json_image v for the values of
+   the case"; for a killed-writer line the hypothesis of C15_holds_crash (some trace of the writer reaches this
+   number of acknowledgements) is acked <= number of operations *)
+Definition validb (c : case) : bool := forallb (image_ok (oracle_of (tabs c))) (case_values c).
+Definition validb_crash (ops : list mop) (acked : nat) : bool := Nat.leb acked (length ops).
+
 Definition entry (x : sx) : sx :=
   match x with
   | L [L [I 0%Z; tb; hd; sts]; ox] =>
@@ -306,7 +312,7 @@ Definition entry (x : sx) : sx :=
           let c := {| tabs := tb; hs := hd; steps := sts |} in
           let m := run_model c in
           L [ obs_sx m; L (map sxS (holds c m)); L (map sxS (holds c io));
-              L (map (fun vt => sxBool (strict_ok vt)) (case_values c)) ]
+              L (map (fun vt => sxBool (strict_ok vt)) (case_values c)); sxBool (validb c) ]
       | None, _, _, _ => sxS "bad-tables"
       | _, None, _, _ => sxS "bad-handles"
       | _, _, None, _ => sxS "bad-steps"
@@ -316,7 +322,7 @@ Definition entry (x : sx) : sx :=
       match asListOf dec_mop ops, asNat a, dec_tbl d with
       | Some ops, Some a, Some d =>
           L [ L [tbl_sx (dump (fold_left apply_mop (firstn a ops) [])); tbl_sx (dump (fold_left apply_mop (firstn (S a) ops) []))];
-              L []; L (map sxS (holds_crash ops a d)) ]
+              L []; L (map sxS (holds_crash ops a d)); L []; sxBool (validb_crash ops a) ]
       | _, _, _ => sxS "bad-crash-case"
       end
   | _ => sxS "bad-line"
